@@ -19,8 +19,10 @@ def setup():
 
 
 def dispatch(pid, tier):
-    from . import layout, graph
+    from . import layout, graph, vft
     table = {
+        "C04": lambda: vft.run_vft("C04", tier),
+        "C16": lambda: vft.run_vft("C16", tier),
         "C09": lambda: graph.run_graph("C09", tier),
         "C10": lambda: graph.run_graph("C10", tier),
         "C01": lambda: layout.run_layout("C01", tier),
